@@ -9,8 +9,9 @@ from .gnf import SymExec, Poly, Canon, valuations, formula_atoms, poly_key_str
 from .ir import walk_stmts, all_exprs, show
 
 META = {
-    'explanation': 'E-GNF truth table of LocalDate::isLeapYear and of the leap test in transformer._days_in_month over the four '
-                   'consistent valuations of {4|y, 100|y, 400|y}; table checks of sDaysInMonth / DAYS_IN_MONTH / sDayOfWeek '
+    'explanation': 'LocalDate::isLeapYear, daysInMonth and isYearValid folded through their real bodies (acv/ceval.py, typed) on every '
+                   'year 1872..2128 plus the century years / every month, transformer._days_in_month interpreted (E-SEQ) on the same '
+                   'years; LocalTime::forSeconds given its integer meaning on all 86,400 seconds of a day; table checks of sDaysInMonth / DAYS_IN_MONTH / sDayOfWeek '
                    '(month-to-month recurrence of the weekday offsets and the epoch-day anchor by constant propagation); '
                    'decision lists of incrementOneDay / decrementOneDay with their wrap constants; the closed arithmetic forms of '
                    'isLeapYear, isYearValid, toEpochDays and extractYearMonthDay are extracted from the source and given their integer '
